@@ -370,3 +370,37 @@ def replay(prop, path):
         return 3
     print("replay of %s: %d events, no violation" % (path, st.evaluations))
     return 0
+
+
+# ---------------------------------------------------------------------------
+# sanitizer / interpreter reports
+
+import re as _re
+
+_REPO_FRAME = _re.compile(r"/repo/|fpdec_core::|[ <(]fpdec::|fpdec_macros::")
+
+
+def classify_tool_output(err):
+    """Look for a sanitizer / Miri / memcheck report in a tool's stderr.
+
+    -> None (no report) or dict(kind, in_repo, snippet). A report counts for
+    the property only if its stack mentions a frame of /repo's crates; an
+    'unsupported operation' of Miri is a tool limitation (inconclusive).
+    """
+    start = -1
+    kind = None
+    for marker, k in (("ERROR: AddressSanitizer", "asan"), ("WARNING: ThreadSanitizer", "tsan"),
+                      ("Undefined Behavior", "miri-ub"), ("error: unsupported operation", "miri-unsupported"),
+                      ("Data race detected", "miri-race"), ("error: memory leaked", "miri-leak"),
+                      ("error: abnormal termination", "miri-abort"), ("error: the evaluated program", "miri-other")):
+        i = err.find(marker)
+        if i >= 0 and (start < 0 or i < start):
+            start, kind = i, k
+    if kind is None:
+        m = _re.search(r"==\d+== (Invalid (read|write)|Conditional jump|Use of uninitialised|Invalid free|Mismatched free)", err)
+        if m:
+            start, kind = m.start(), "memcheck"
+    if kind is None:
+        return None
+    snippet = err[start:start + 5000]
+    return {"kind": kind, "in_repo": bool(_REPO_FRAME.search(snippet)), "snippet": snippet[:2500]}
